@@ -319,7 +319,7 @@ class Address(BaseAddress):
             # referencing a nested message that it contains, we need
             # the message to be referenced relative to this message's
             # namespace.
-            if self.parent and self.parent[0] == address.name:
+            if self.parent and not address.parent and self.parent[0] == address.name:
                 return ".".join(self.parent[1:] + (self.name,))
 
             # It is possible that a field references a message that has
